@@ -307,10 +307,15 @@ Proof. vm_compute. repeat split. Qed.
 (* ------------------------------------------ service documents ---------- *)
 Definition s_dir_plain : str :=                                   (* directive @d on FIELD *)
   [100;105;114;101;99;116;105;118;101;32;64;100;32;111;110;32;70;73;69;76;68].
-Lemma repeatable_refuted :
-  parse_schema 400 s_dir_plain = Ok [SDirective None [100] [] true [[70;73;69;76;68]]] /\
-  spec_schema 400 s_dir_plain = Ok [SDirective None [100] [] false [[70;73;69;76;68]]] /\
-  known_class_sdl s_dir_plain = 6.
+Definition s_dir_rep : str :=                                     (* directive @d repeatable on FIELD *)
+  [100;105;114;101;99;116;105;118;101;32;64;100;32;114;101;112;101;97;116;97;98;108;101;32;111;110;32;70;73;69;76;68].
+(* the repeatable flag is the presence of the keyword (repaired; was always true) *)
+Lemma repeatable_flag :
+  parse_schema 400 s_dir_plain = Ok [SDirective None [100] [] false [[70;73;69;76;68]]] /\
+  parse_schema 400 s_dir_rep = Ok [SDirective None [100] [] true [[70;73;69;76;68]]] /\
+  spec_schema 400 s_dir_plain = parse_schema 400 s_dir_plain /\
+  spec_schema 400 s_dir_rep = parse_schema 400 s_dir_rep /\
+  known_class_sdl s_dir_plain = 0.
 Proof. vm_compute. repeat split. Qed.
 
 (* VariableDefinition: the specification has DefaultValue before Directives, the grammar the reverse *)
